@@ -415,22 +415,25 @@ class AffineDomain(Domain):
         for k in list(s.d):
             if k[0] in ("ge", "eq") and any(a.endswith("#" + tag) for a in k[1].atoms()):
                 del s.d[k]
-        if cand and cand["vars"] == vars_:
+        if cand and all(v in vars_ for v in cand["vars"]):
+            # the candidate relation speaks about the variables common to all arrivals (a local that is first assigned
+            # inside the loop has no value on entry); the others are simply havocked
+            cvars = cand["vars"]
             cur = {k: (fresh[k] if k in fresh else s.d[("v", k)]) for k in vars_}
             # impose each candidate equality by solving for one havoc'd variable
             solved = set()
             for vec in cand["basis"]:
                 # sum c_i v_i = d
                 piv = None
-                for i, k in enumerate(vars_):
+                for i, k in enumerate(cvars):
                     if vec[i] != 0 and k in fresh and k not in solved:
                         piv = i
                         break
                 if piv is None:
                     continue
-                k = vars_[piv]
+                k = cvars[piv]
                 rest = Aff.const(vec[-1])
-                for i, kk in enumerate(vars_):
+                for i, kk in enumerate(cvars):
                     if i != piv and vec[i] != 0:
                         rest = rest - cur[kk].scale(vec[i])
                 sol = rest.scale(Fraction(1) / vec[piv])
